@@ -117,7 +117,7 @@ ALL_FIELDS = ["out", "val", "errs", "cnt", "maxfail", "gs", "trace"]
 # ------------------------------------------------------------------ C01
 @prop("C01", replay_known=replay_runtime_known)
 def c01(ctx, rep):
-    run_corr(ctx, rep, [("c01", 1500, 20000), ("class", 300, 4000), ("enum", 400, 0)], fields=["out", "val", "errs"],
+    run_corr(ctx, rep, [("c01", 1500, 20000), ("class", 300, 4000), ("enum", 400, 0), ("pack", 250, 0)], fields=["out", "val", "errs"],
              ref_fields=["out", "val"], known_quirks=known_quirks_for("C01"), emitted=(48, 600))
 
 # ------------------------------------------------------------------ C02
@@ -145,7 +145,7 @@ def c02_oracle(case_line, impl, model):
 
 @prop("C02", replay_known=replay_runtime_known)
 def c02(ctx, rep):
-    run_corr(ctx, rep, [("c02", 500, 12000)], fields=["out", "val", "trace"],
+    run_corr(ctx, rep, [("c02", 500, 12000), ("pack", 20, 400)], fields=["out", "val", "trace"],
              ref_fields=["out", "val", "trace"], oracle=c02_oracle, known_quirks=known_quirks_for("C02"), emitted=(24, 300))
 
 # ------------------------------------------------------------------ C05
@@ -187,7 +187,7 @@ def c12(ctx, rep):
 # ------------------------------------------------------------------ C14
 @prop("C14", replay_known=replay_runtime_known)
 def c14(ctx, rep):
-    run_corr(ctx, rep, [("c14", 500, 12000)], fields=["out", "val", "errs", "trace"],
+    run_corr(ctx, rep, [("c14", 500, 12000), ("pack", 20, 400)], fields=["out", "val", "errs", "trace"],
              ref_fields=["out", "val", "errs", "trace_noctx"], known_quirks=known_quirks_for("C14"), emitted=(24, 300))
 
 # ------------------------------------------------------------------ C16
